@@ -117,7 +117,13 @@ BlkFails(ev, r) ==
 (******************************* accessors *********************************)
 AccWant(ev, E) ==
   LET xs == E.xs  n == Len(xs)  c == ev.codec  a == ev.api IN
-  CASE a \in {"ReadMetadata.count", "GetCount", "ReadMeta.count", "GetFieldCount", "ReadMeta.originalCount"} ->
+  CASE a \in {"Analyze.count", "BatchAnalyze.count"} -> [num |-> n, any |-> FALSE]
+    [] a \in {"Analyze.minValue", "BatchAnalyze.minValue"} -> [val |-> LSeqMin(xs)]
+    [] a \in {"Analyze.offsetWidth", "BatchAnalyze.offsetWidth", "ComputeWidth"} -> [num |-> ForWidth(xs), any |-> FALSE]
+    [] a = "Analyze.runCount" -> [num |-> RunCount(xs), any |-> FALSE]
+    [] a = "Analyze.encodedSize" -> [num |-> E.written, any |-> FALSE]
+    [] a = "MaxBitWidth" -> [num |-> LBitLen(LSeqMax(xs)), any |-> FALSE]
+    [] a \in {"ReadMetadata.count", "GetCount", "ReadMeta.count", "GetFieldCount", "ReadMeta.originalCount"} ->
          [num |-> n, any |-> (c = "adaptive" /\ ~(E.hdr[1] \in {1, 2}))]   \* adaptive: documented as 0 for other encodings
     [] a \in {"ReadMetadata.minValue", "GetMinValue", "ReadMeta.min"} -> [val |-> LSeqMin(xs)]
     [] a \in {"ReadMetadata.offsetWidth", "GetOffsetWidth"} -> [num |-> ForWidth(xs), any |-> FALSE]
